@@ -169,6 +169,17 @@ def unlistenStmt (st : St) (l : String) : St × String :=
   | some (.listener id) => ({ st with lis := st.lis.modify id fun x => { x with active := false } }, "ok")
   | _ => (st, "skip")
 
+/-- `accum_lazy` / `collect_lazy`: the fold starts from the value the Lazy denotes (the value its cell had when
+    it was taken) -/
+def lazyFoldStmt (st : St) (x s z op : String) (isAccum : Bool) : St × String :=
+  if !st.fresh x then (st, "skip") else
+  match st.stream s, st.find z, num op with
+  | some s, some (.lazy snap cell), some op =>
+    (match snap.orElse fun _ => cell.bind st.sp.val with
+     | some v => if isAccum then defStmt st x (some (.accum s v op)) .c else defStmt st x (some (.collect s v op)) .s
+     | none => ({ st with dead := true }, "PANIC sample-before-loop"))
+  | _, _, _ => (st, "skip")
+
 /-- one statement (not `begin`/`end`) -/
 def stmt (st : St) (ws : List String) : St × String :=
   match ws with
@@ -212,6 +223,8 @@ def stmt (st : St) (ws : List String) : St × String :=
       if 3 ≤ cs.length ∧ cs.length ≤ 6 then pure (.liftn cs) else none) .c
   | ["accum", x, s, k, op] => defStmt st x (do pure (.accum (← st.stream s) (← num k) (← num op))) .c
   | ["collect", x, s, k, op] => defStmt st x (do pure (.collect (← st.stream s) (← num k) (← num op))) .s
+  | ["accumlazy", x, s, z, op] => lazyFoldStmt st x s z op true
+  | ["collectlazy", x, s, z, op] => lazyFoldStmt st x s z op false
   | ["defer", x, s] => defStmt st x (do pure (.defer (← st.stream s))) .s
   | ["split", x, s, n] => defStmt st x (do
       let s ← st.stream s; let n ← num n
